@@ -40,6 +40,14 @@ def run(chk):
         lines.append(f"(val cn{j} cast {values.s(t)} none)")
         for r in (2.0, 10.0, 16.0, 36.0):
             lines.append(f"(val cr{j}_{int(r)} cast {values.s(t)} (some {values.num(r)}))")
+    for i, v in enumerate(values.LONGS):
+        for j, p in enumerate(params):
+            lines.append(f"(val Lsp{i}_{j} split {v} {p})")
+            lines.append(f"(val Ljo{i}_{j} join {v} {p})")
+        for j, p in enumerate(radices[:6]):
+            lines.append(f"(val Lca{i}_{j} cast {v} {p})")
+        for op in ("round_up", "round_down", "round_nearest"):
+            lines.append(f"(val Lr{op[6]}{i} {op} {v})")
     res, _ = suite.compare(chk, lines, "val", suite_name="VAL-mutations")
     for l in lines:
         cid = C.case_id(l)
@@ -54,7 +62,7 @@ def run(chk):
         cases.append({"src": "\n".join(init + [f"{op} X{wth}", "say X"]) + "\n", "meta": op + " in place"})
         cases.append({"src": "\n".join(init + [f"{op} X into Y{wth}", "say X", "say Y"]) + "\n", "meta": op + " into"})
         cases.append({"src": "\n".join(init + ["rock Apex with 0", "let Apex at 1 be X", f"{op} Apex at 1{wth}", "say Apex at 1", "say X"]) + "\n", "meta": op + " subscript"})
-        cases.append({"src": "\n".join(init + ["rock Apex with 0", f"{op} X into Apex at 2{wth}", "say Apex at 2", "say A", "say X"]) + "\n", "meta": op + " into subscript"})
+        cases.append({"src": "\n".join(init + ["rock Apex with 0", f"{op} X into Apex at 2{wth}", "say Apex at 2", "say Apex", "say X"]) + "\n", "meta": op + " into subscript"})
         cases.append({"src": "\n".join(init + [f"{op} it{wth}", "say X", "say it"]) + "\n", "meta": op + " pronoun"})
         cases.append({"src": "\n".join(init + [f"{op} X into it{wth}", "say X"]) + "\n", "meta": op + " into pronoun"})
     for d in ("up", "down", "round", "around"):
